@@ -685,5 +685,74 @@ Proof.
     destruct (IH s1 Hr Q1) as [Q2 [n2 C2]].
     destruct (run_cmds fuel p s1 r) as [s2 sn]. cbn [fst] in *.
     split; auto. exists (n1 + n2)%nat. rewrite citer_add.
-    eapply core_eq_trans; [exact C2|]. rewrite <- (end_time_core _ _ C1) at 1.
-Abort.
+    assert (Ee : end_time s1 = end_time s).
+    { rewrite (end_time_core _ _ C1). unfold end_time.
+      destruct (citer_fixed n1 (end_time s) true p s) as (_&_&Fr&_). unfold end_time in Fr. rewrite Fr. reflexivity. }
+    rewrite Ee in C2. eapply core_eq_trans; [exact C2|].
+    apply citer_core; [apply prog_equiv_refl|exact C1].
+Qed.
+
+Lemma end_time_citer n b i p s : end_time (citer n b i p s) = end_time s.
+Proof. unfold end_time. destruct (citer_fixed n b i p s) as (_&_&Fr&_). rewrite Fr. reflexivity. Qed.
+
+(** Segmentation: two ways of driving core-equal states of equivalent
+    programs (same handler code up to commands and to what follows a failure)
+    through run commands that both end the replication through an inclusive
+    bound have executed the same events at the same clocks, scheduled and
+    cancelled the same events, and stand at the same clock.  One of the two
+    may be the single uninterrupted [start]. *)
+Theorem segmentation p p' fuel fuel' cs cs' s t :
+  prog_equiv p p' -> core_eq s t -> Quiet s -> Quiet t ->
+  forallb is_runcmd cs = true -> forallb is_runcmd cs' = true ->
+  let s1 := fst (run_cmds fuel p s cs) in
+  let t1 := fst (run_cmds fuel' p' t cs') in
+  ps s1 = PEnded -> incl s1 = true -> ps t1 = PEnded -> incl t1 = true ->
+  core_eq s1 t1 /\ clock s1 = clock t1.
+Proof.
+  intros PE C Qs Qt Hcs Hcs' s1 t1 Ps Is Pt It.
+  destruct (run_cmds_citer p fuel cs s Hcs Qs) as [Q1 [n C1]]. fold s1 in Q1, C1.
+  destruct (run_cmds_citer p' fuel' cs' t Hcs' Qt) as [Q2 [m C2]]. fold t1 in Q2, C2.
+  assert (O1 : Over s1) by (destruct Q1 as [(_&[Q|Q]&_)|O]; auto; congruence).
+  assert (O2 : Over t1) by (destruct Q2 as [(_&[Q|Q]&_)|O]; auto; congruence).
+  destruct O1 as (_&_&K1&T1). destruct O2 as (_&_&K2&T2). specialize (T1 Is). specialize (T2 It).
+  assert (Ee : end_time t = end_time s) by (symmetry; apply end_time_core; auto).
+  assert (E1 : end_time s1 = end_time s) by (rewrite (end_time_core _ _ C1); apply end_time_citer).
+  assert (E2 : end_time t1 = end_time s) by (rewrite (end_time_core _ _ C2), end_time_citer; auto).
+  rewrite Ee in C2.
+  (* bring t's sequence over to s *)
+  assert (C2' : core_eq t1 (citer m (end_time s) true p s)).
+  { eapply core_eq_trans; [exact C2|]. apply citer_core; [apply prog_equiv_sym; auto|apply core_eq_sym; auto]. }
+  rewrite E1 in T1. rewrite E2 in T2.
+  pose proof (cterm_core _ _ _ _ C1 T1) as U1. pose proof (cterm_core _ _ _ _ C2' T2) as U2.
+  pose proof (citer_term_unique n m _ _ p s U1 U2) as U.
+  split; [|congruence].
+  eapply core_eq_trans; [exact C1|]. rewrite U. apply core_eq_sym; exact C2'.
+Qed.
+
+(** Without any condition on how far the segmented run got, it has executed a
+    prefix of what a completed run executes. *)
+Theorem segmentation_prefix p p' fuel fuel' cs cs' s t :
+  prog_equiv p p' -> core_eq s t -> Quiet s -> Quiet t ->
+  forallb is_runcmd cs = true -> forallb is_runcmd cs' = true ->
+  let s1 := fst (run_cmds fuel p s cs) in
+  let t1 := fst (run_cmds fuel' p' t cs') in
+  ps t1 = PEnded -> incl t1 = true ->
+  exists k, trace t1 = k ++ trace s1.
+Proof.
+  intros PE C Qs Qt Hcs Hcs' s1 t1 Pt It.
+  destruct (run_cmds_citer p fuel cs s Hcs Qs) as [Q1 [n C1]]. fold s1 in Q1, C1.
+  destruct (run_cmds_citer p' fuel' cs' t Hcs' Qt) as [Q2 [m C2]]. fold t1 in Q2, C2.
+  assert (O2 : Over t1) by (destruct Q2 as [(_&[Q|Q]&_)|O]; auto; congruence).
+  destruct O2 as (_&_&K2&T2). specialize (T2 It).
+  assert (Ee : end_time t = end_time s) by (symmetry; apply end_time_core; auto).
+  assert (E2 : end_time t1 = end_time s) by (rewrite (end_time_core _ _ C2), end_time_citer; auto).
+  rewrite Ee in C2.
+  assert (C2' : core_eq t1 (citer m (end_time s) true p s)).
+  { eapply core_eq_trans; [exact C2|]. apply citer_core; [apply prog_equiv_sym; auto|apply core_eq_sym; auto]. }
+  rewrite E2 in T2. pose proof (cterm_core _ _ _ _ C2' T2) as U2.
+  destruct C1 as (_&_&_&Tr1&_). destruct C2' as (_&_&_&Tr2&_). rewrite Tr1, Tr2.
+  destruct (Nat.le_ge_cases n m) as [L|L].
+  - replace m with (n + (m - n))%nat by lia. rewrite citer_add. apply citer_trace_ext.
+  - exists []. replace n with (m + (n - m))%nat by lia. rewrite citer_add.
+    rewrite (citer_term _ _ _ _ _ U2). reflexivity.
+Qed.
